@@ -10,6 +10,10 @@ EXTREMES = {"zero": 0.0, "subnormal": 5e-324, "min_mt": 2.0 ** -53, "tiny": 1e-3
             "one_minus_ulp": 1.0 - 2.0 ** -53, "quarter": 0.25}
 
 
+class StreamFault(RuntimeError):
+    pass
+
+
 class CountingStream(StreamInterface):
     def __init__(self, seed):
         self._mt = MersenneTwister(seed)
@@ -18,8 +22,15 @@ class CountingStream(StreamInterface):
         self.after_freeze = 0
         self.splice = {}          # call position -> value (floats only)
         self.spliced_hits = 0
+        self.fail_at = None       # call position at which the next call raises (once)
+        self.failed = 0
 
     def _tick(self):
+        if self.fail_at is not None and self.calls >= self.fail_at:
+            # an injected stream fault (e.g. an exhausted recorded stream): raised once, before anything is delivered
+            self.fail_at = None
+            self.failed += 1
+            raise StreamFault("injected stream fault")
         if self.frozen:
             self.after_freeze += 1
         self.calls += 1
@@ -37,9 +48,10 @@ class CountingStream(StreamInterface):
             return self.splice[pos]
         return v
 
-    def next_int(self, lo, hi):
+    def next_int(self, low, high, /):
+        # (a user-written stream: its parameter names are its own, the library calls it by position)
         self._tick()
-        return self._mt.next_int(lo, hi)
+        return self._mt.next_int(low, high)
 
     def seed(self):
         return self._mt.seed()
@@ -47,8 +59,8 @@ class CountingStream(StreamInterface):
     def original_seed(self):
         return self._mt.original_seed()
 
-    def set_seed(self, seed):
-        self._mt.set_seed(seed)
+    def set_seed(self, value, /):
+        self._mt.set_seed(value)
 
     def reset(self):
         self._mt.reset()
@@ -56,8 +68,8 @@ class CountingStream(StreamInterface):
     def save_state(self):
         return self._mt.save_state()
 
-    def restore_state(self, state):
-        self._mt.restore_state(state)
+    def restore_state(self, saved, /):
+        self._mt.restore_state(saved)
 
     def freeze(self):
         self.frozen = True
